@@ -26,15 +26,23 @@ Family 1 `reload_<attr>[_noflush]` (entity E of C20: plain int a, float f, int x
        the volatile attribute unless assigned - shows the re-fetched value afterwards when nothing was raised (floats:
        or keeps a value within RealConverter's relative tolerance of it);
     T3 an unchanged row raises nothing.
-  Known region, split off so that the rest is still decided: `reload_g_pending` = the reference was assigned without
-  having been read, is not flushed, and its row is re-fetched with another target (GENUINE DEFECT: KeyError out of
-  Set.db_reverse_remove, see checks/c21.py); `reload_g_noflush` excludes exactly that state.
+  `reload_g_pending` = the reference was assigned without having been read, is not flushed, and its row is re-fetched with
+  another target: this used to raise KeyError out of Set.db_reverse_remove (found by this check, repaired in /repo with
+  setdata.discard); kept as its own strict harness, `reload_g_noflush` covers the other states.
 Family 2 `o2o_*` (entities P.partner = Optional(Q) [no column], Q.p = Optional(P) [column]):
   `p.partner` is observed, later queries fetch Q rows whose link column changed (unlink Q[10], link Q[11], both orders),
   then `p.partner` is read again.  Asserted: same value as the first read, or UnrepeatableReadError.
     o2o_relink_tracked    - the cases in which the link column Q[10].p itself had been marked as read (holds);
     o2o_relink_untracked  - Q[10] was loaded by key and Q[10].p never read   (GENUINE VIOLATION, see checks/c21.py)
     o2o_none_then_linked  - `p.partner` was observed as None                  (GENUINE DEFECT, see checks/c21.py)
+Family 3 `sub_query_read` (inheritance: Person(age), Student(Person) with gpa, course; one table): a Student row becomes known
+  through a query over the BASE entity whose condition uses the subclass attribute (`select(p for p in Person if p.gpa > 4)`),
+  through the same condition over Student, through a base-attribute condition, or by key; optionally obj.gpa is read too; then
+  the row is re-fetched with one symbolic changed column.  An attribute used by the condition of the query that returned the
+  object counts as observed (EntityMeta._set_rbits must mark it per concrete class); T0-T3 as above.  The real Query /
+  translator run (caches warmed in setup); HashableDict.__hash__ of the (concrete) query keys runs outside the tracer.
+Collections stay outside the symbolic part; checks/c21.py carries four concrete two-connection ties for a fully loaded
+one-to-many collection observed by iteration (loaded by the iteration itself / by len() / bool() / list() first).
 Bounds / restructuring w.r.t. DESIGN.md:
   * the design's single kernel over fully symbolic masks and rows does not fit the budget (every changed column forks
     the path; 2^12 mask states): one attribute changes per harness (two in reload_two), the other attributes' flags are
@@ -129,6 +137,17 @@ def setup():
     h.Person, h.Student, h.E = Person, Student, Person
     h.db.generate_mapping(check_tables=False)
     O2O['inh'] = h
+    # Query keys are HashableDicts of concrete values (no query parameter is symbolic here); CrossHair models hash(str) as a
+    # symbolic int and HashableDict.__hash__ XORs such values, which realises them one by one -> hashed outside the tracer
+    from pony.utils import utils as pu
+    real_hash = pu.HashableDict.__hash__
+
+    def untraced_hash(self):
+        from crosshair.tracers import NoTracing, is_tracing
+        if is_tracing():
+            with NoTracing(): return real_hash(self)
+        return real_hash(self)
+    pu.HashableDict.__hash__ = untraced_hash
     for via in range(4):                      # warm the translator / SQL caches outside the tracer
         _sub(via, False, (30, 5, 1), 1, 6)
         assert LAST['before'] is not None and LAST['after'] is not None, (via, LAST)
